@@ -135,8 +135,11 @@ func stdValueCases(g *gen) {
 	}
 }
 
-// stdlibCalls: for the appenders that delegate their rendering, every function each one calls today (go/ast):
-// package functions qualified, methods and builtins by name, sorted, without duplicates. Names of locals do not occur.
+// stdlibCalls: for the appenders that delegate their rendering, the calls that LEAVE package fastlog today (go/ast):
+// standard-library functions (qualified) and methods invoked on values that are not the Line (String, AppendTo,
+// AppendFormat, Error, FastLog, reflect's Kind/IsNil ...), collected transitively through package-local helpers;
+// builtins, conversions and package-local calls (appendByte, a helper extracted from several appenders ...) are not
+// listed, so refactoring inside the package is silent and replacing a standard rendering is not.
 func stdlibCalls() string {
 	f, err := parser.ParseFile(token.NewFileSet(), filepath.Join(repoRoot(), "fastlog", "logging.go"), nil, 0)
 	if err != nil {
@@ -148,32 +151,74 @@ func stdlibCalls() string {
 		p := strings.Trim(im.Path.Value, "\"")
 		pkgs[p[strings.LastIndex(p, "/")+1:]] = true
 	}
-	var parts []string
+	local := map[string]*ast.FuncDecl{} // package-local functions and methods by name
 	for _, d := range f.Decls {
-		fd, ok := d.(*ast.FuncDecl)
-		if !ok || fd.Recv == nil || fd.Body == nil || !want[fd.Name.Name] {
-			continue
+		if fd, ok := d.(*ast.FuncDecl); ok && fd.Body != nil {
+			if _, dup := local[fd.Name.Name]; !dup || fd.Recv != nil && recvIsLine(fd) {
+				local[fd.Name.Name] = fd
+			}
 		}
-		set := map[string]bool{}
+	}
+	var collect func(fd *ast.FuncDecl, set map[string]bool, seen map[string]bool)
+	collect = func(fd *ast.FuncDecl, set map[string]bool, seen map[string]bool) {
+		if seen[fd.Name.Name] {
+			return
+		}
+		seen[fd.Name.Name] = true
+		recv := ""
+		if fd.Recv != nil && len(fd.Recv.List) == 1 && len(fd.Recv.List[0].Names) == 1 {
+			recv = fd.Recv.List[0].Names[0].Name
+		}
+		var isLocalCall func(ce *ast.CallExpr) *ast.FuncDecl
+		isLocalCall = func(ce *ast.CallExpr) *ast.FuncDecl {
+			switch fn := ce.Fun.(type) {
+			case *ast.Ident:
+				return local[fn.Name]
+			case *ast.SelectorExpr:
+				callee := local[fn.Sel.Name]
+				if callee == nil || callee.Recv == nil {
+					return nil
+				}
+				switch x := fn.X.(type) {
+				case *ast.Ident:
+					if x.Name == recv && recv != "" {
+						return callee
+					}
+				case *ast.CallExpr: // l.printInt(x).appendByte(c)
+					if isLocalCall(x) != nil {
+						return callee
+					}
+				}
+			}
+			return nil
+		}
 		ast.Inspect(fd.Body, func(n ast.Node) bool {
 			ce, ok := n.(*ast.CallExpr)
 			if !ok {
 				return true
 			}
-			switch fn := ce.Fun.(type) {
-			case *ast.Ident:
-				if fn.Name != "byte" && fn.Name != "int" && fn.Name != "int64" && fn.Name != "uint32" { // conversions are not calls
-					set[fn.Name] = true
-				}
-			case *ast.SelectorExpr:
-				if id, ok := fn.X.(*ast.Ident); ok && pkgs[id.Name] {
-					set[id.Name+"."+fn.Sel.Name] = true
+			if callee := isLocalCall(ce); callee != nil {
+				collect(callee, set, seen)
+				return true
+			}
+			if se, ok := ce.Fun.(*ast.SelectorExpr); ok {
+				if id, ok := se.X.(*ast.Ident); ok && pkgs[id.Name] {
+					set[id.Name+"."+se.Sel.Name] = true
 				} else {
-					set[fn.Sel.Name] = true
+					set[se.Sel.Name] = true
 				}
 			}
 			return true
 		})
+	}
+	var parts []string
+	for _, d := range f.Decls {
+		fd, ok := d.(*ast.FuncDecl)
+		if !ok || fd.Recv == nil || fd.Body == nil || !want[fd.Name.Name] || !recvIsLine(fd) {
+			continue
+		}
+		set := map[string]bool{}
+		collect(fd, set, map[string]bool{})
 		var names []string
 		for n := range set {
 			names = append(names, n)
@@ -183,4 +228,16 @@ func stdlibCalls() string {
 	}
 	sort.Strings(parts)
 	return strings.Join(parts, ";")
+}
+
+func recvIsLine(fd *ast.FuncDecl) bool {
+	if fd.Recv == nil || len(fd.Recv.List) != 1 {
+		return false
+	}
+	t := fd.Recv.List[0].Type
+	if s, ok := t.(*ast.StarExpr); ok {
+		t = s.X
+	}
+	id, ok := t.(*ast.Ident)
+	return ok && id.Name == "Line"
 }
